@@ -32,6 +32,8 @@ Cases ==
   \* one-word and limb-boundary scalars at sizes where each window width c divides / does not divide 64 gets chosen
   \cup {[Blank EXCEPT !.n = n, !.tasks = t, !.scalars = s, !.mont = m] : n \in {1, 7, 33, 100, 1000}, t \in {1, 16}, s \in {"oneword", "limbs"}, m \in BOOLEAN}
   \cup {[Blank EXCEPT !.kind = "mismatch", !.n = n, !.tasks = 3] : n \in {1, 2, 256}}
+  \* the same slices passed again after in-place changes
+  \cup {[Blank EXCEPT !.kind = "reuse", !.n = n, !.tasks = t] : n \in {1, 2, 8, 64, 300}, t \in {0, 1, 16}}
   \cup {[Blank EXCEPT !.kind = "multiscalar", !.n = n, !.points = p] : n \in {0, 1, 2, 3, 128, 256}, p \in {"srs", "proj", "withid"}}
 VARIABLE done
 Init == done = FALSE
